@@ -8,8 +8,8 @@ CONSTANTS
   CtlOps = {"begin", "commit", "rollback", "savepoint", "release", "rollbackto", "failprep"}
   TxModes = {TRUE, FALSE}
   Trigs = {TRUE, FALSE}
-  Filters = {TRUE, FALSE}
-  Idss = {TRUE, FALSE}
+  Filters = {TRUE}
+  Idss = {TRUE}
   DropRolledBack = TRUE
   GroupPerCommit = TRUE
   FilterTables = TRUE
